@@ -160,7 +160,7 @@ pub fn c11(ctx: &Ctx, subj: &dyn DynSubject, ty: &Ty, rep: &mut Report) {
         let mut ent = Ent::new(ent);
         self_check(subj, v)?;
         let (bytes, _) = ser_bytes(subj, v)?;
-        let enc = model_enc(ctx, subj, ty, v)?;
+        let enc = model_enc_fit(ctx, subj, ty, v, bytes.len(), log)?;
         let len = bytes.len();
         log.sample = Some(sample_json(subj, v, Some(&bytes), json!({"cuts": if len <= 600 { "every k in [0,len)".to_string() } else { "256 sampled incl. field boundaries".to_string() }})));
         let cuts: Vec<usize> = if len <= 600 {
